@@ -16,6 +16,7 @@ import (
 
 // PricingAtt is the structured value carried by a pricing text.
 type PricingAtt struct {
+	Valid  *Term // nil: accepted by the pricing schema by construction; else the condition under which it is
 	Price  *Term // Int >= 0, amount in base denom
 	ByTime []PromoT
 	ByVol  []PromoV
@@ -393,6 +394,45 @@ func init() {
 		return r
 	})
 
+	// ---- gjson on concrete documents (result codes): Get(json, path) and Result.String
+	reg("github.com/tidwall/gjson.Get", func(e *Exec, a []Value) Value {
+		doc, ok1 := concreteString(a[0].(StrVal))
+		path, ok2 := concreteString(a[1].(StrVal))
+		if !ok1 || !ok2 {
+			panic(abort{"gjson.Get on symbolic text"})
+		}
+		var cur interface{}
+		dec := json.NewDecoder(strings.NewReader(doc))
+		dec.UseNumber()
+		out := ""
+		if err := dec.Decode(&cur); err == nil {
+			for _, seg := range strings.Split(path, ".") {
+				m, isMap := cur.(map[string]interface{})
+				if !isMap {
+					cur = nil
+					break
+				}
+				cur = m[seg]
+			}
+			switch x := cur.(type) {
+			case string:
+				out = x
+			case json.Number:
+				out = x.String()
+			case bool:
+				out = strconv.FormatBool(x)
+			case nil:
+				out = ""
+			default:
+				bz, _ := json.Marshal(x)
+				out = string(bz)
+			}
+		}
+		return ModelVal{Kind: "gjson", Tag: out}
+	})
+	modelMethods["gjson.String"] = func(e *Exec, r ModelVal, a []Value) Value { return e.constStr(r.Tag) }
+	reg("(github.com/tidwall/gjson.Result).String", func(e *Exec, a []Value) Value { return e.constStr(a[0].(ModelVal).Tag) })
+
 	// ---- JSON
 	reg("encoding/json.Valid", func(e *Exec, a []Value) Value {
 		sv := a[0].(SliceVal)
@@ -484,11 +524,15 @@ func init() {
 		case SliceVal:
 			att = d.Att
 		}
-		if _, isPricing := att.(*PricingAtt); isPricing {
+		if pa, isPricing := att.(*PricingAtt); isPricing {
 			if !strings.Contains(schema, "iservice-pricing") {
 				panic(abort{"structured pricing text validated against another schema"})
 			}
-			res.valid = true // the generator only builds schema-valid pricing values (see vf.PricingText)
+			// vf.PricingText only builds schema-valid values; vf.PricingTextLoose says when its value is
+			res.valid = pa.Valid == nil || e.branch(pa.Valid)
+			if !res.valid {
+				res.errs = []string{"pricing: does not match the schema"}
+			}
 		} else {
 			doc, ok := e.concreteOf(docV)
 			if !ok {
